@@ -1294,17 +1294,22 @@ def run_link(cfg, script, R, budget=None, factory=None):
                     finish_links(budget, R)
                 link = None
             if link is None:
-                link = (factory or Link)(cfg)
-                current["link"] = link
-                first = bi
-                if not link.start():
-                    R.inconc("link did not come up: %s" % link.diag())
+                for attempt in range(4):          # link set-up runs in real time: retry before giving up
+                    link = (factory or Link)(cfg)
+                    current["link"] = link
+                    first = bi
+                    if link.start():
+                        break
+                    diag = link.diag()
+                    R.count("link_start_retries")
                     link.kill()
                     link.signal_stop()
                     budget.old_links.append(link)
                     if budget.old_links[-1].exclusive:
                         finish_links(budget, R)
                     link = None
+                if link is None:
+                    R.inconc("link did not come up in 4 attempts: %s" % diag)
                     return nviol
                 R.count("links" if link.kind == "pipe" else "fullstack_links")
                 R.seen("link_miu", "%d/%d" % (cfg["miu"]["A"], cfg["miu"]["B"]))
